@@ -115,10 +115,15 @@ def exception_in_flight_kept(chk: Check, rule: str) -> None:
         except Exception:  # noqa: BLE001
             ip = True
         for t in tries:
-            if not ip or not any(isinstance(x, (ast.Call, ast.Await)) for b in t.body for x in walk_shallow_stmt(b)):
+            # (the body of a ``with`` runs at the ``yield`` of a context manager: ``try: yield / finally:`` protects whatever the caller puts there)
+            if not any(isinstance(x, (ast.Yield, ast.YieldFrom)) for b in t.body for x in walk_shallow_stmt(b)) and (
+                    not ip or not any(isinstance(x, (ast.Call, ast.Await)) for b in t.body for x in walk_shallow_stmt(b))):
                 continue
             n += 1
             bad = [x for b in t.finalbody for x in walk_shallow_stmt(b) if isinstance(x, (ast.Assert, ast.Raise, ast.Return))]
+            # one named exemption: the sanity check of the process scope ("the process on top of the stack is me").  It reads the stack that the scope itself
+            # pushed; the pairing rule of C18 (every push restored on every exit, exceptional ones included) is what shows that it cannot fail
+            bad = [x for x in bad if not (isinstance(x, ast.Assert) and norm(x.test) in ('Process.current() is self', 'PROCESS_STACK.get()[-1] is self', 'self is Process.current()'))]
             chk.ob(rule, f, not bad, f'{f.short}: the finally block of a try whose body may run user code only restores state' + ('' if not bad else
                    f' -- it does not: `{norm(bad[0])[:80]}` runs while the user\'s exception is in flight and replaces (or swallows) it'), node=bad[0] if bad else t, kind='finally-does-not-raise',
                    expr=f'finally of the try at statement `{norm(t.body[0])[:60]}`')
